@@ -9,7 +9,7 @@ use std::cmp::Ordering;
 use std::collections::hash_map::DefaultHasher;
 use std::hash::{Hash, Hasher};
 
-kinds!(K { Pair = "date-time-pair", Tm = "time-usecs", TmOut = "time-usecs-out-of-range", Hms = "hms-tuple", OrdTs = "order-timestamps", OrdTm = "order-times" });
+kinds!(K { Cross = "date-then-timestamp-with-equal-raw-number", Pair = "date-time-pair", Tm = "time-usecs", TmOut = "time-usecs-out-of-range", Hms = "hms-tuple", OrdTs = "order-timestamps", OrdTm = "order-times" });
 pub type C = G<K>;
 impl Case for C {
     fn to_json(&self) -> Value {
@@ -34,6 +34,34 @@ fn second_ok(x: Option<f64>, s: u32, us: u32) -> bool {
 
 pub fn check(st: &mut Stats, c: &C) {
     match c.k {
+        K::Cross => {
+            // history monitor: accessors of a Date (day number n) and of a Timestamp whose microsecond count is the same
+            // number n, called back to back in both orders; each must report its own fields
+            let n = c.a;
+            let d = Date::try_from_days(n as i32).expect("date");
+            let t = Timestamp::try_from_usecs(n).expect("timestamp");
+            let (dy, dm, dd) = cal().of(n as i32);
+            let tn = n.div_euclid(DAY_US) as i32;
+            let (ty, tm, td) = cal().of(tn);
+            let (hh, mi, _, _) = radix(n.rem_euclid(DAY_US));
+            for order in 0..2 {
+                let (a, b) = if order == 0 {
+                    let a = (d.year(), d.month(), d.day());
+                    (a, (t.year(), t.month(), t.day(), t.hour(), t.minute()))
+                } else {
+                    let b = (t.year(), t.month(), t.day(), t.hour(), t.minute());
+                    ((d.year(), d.month(), d.day()), b)
+                };
+                st.op(Op::D_accessors);
+                st.op(Op::TS_accessors);
+                if a != (Some(dy), Some(dm as i32), Some(dd as i32)) {
+                    st.fail("C07/history/date-accessors-after-timestamp-accessors", format!("Date day {} reports {:?}, expected {:?} (order {})", n, a, (dy, dm, dd), order));
+                }
+                if b != (Some(ty), Some(tm as i32), Some(td as i32), Some(hh as i32), Some(mi as i32)) {
+                    st.fail("C07/history/timestamp-accessors-after-date-accessors", format!("Timestamp {} us reports {:?}, expected {:?} (order {})", n, b, (ty, tm, td, hh, mi), order));
+                }
+            }
+        }
         K::Pair => {
             let (n, t) = (c.a as i32, c.b);
             let (d, tm) = match (Date::try_from_days(n), Time::try_from_usecs(t)) {
@@ -213,6 +241,18 @@ pub fn run(ctx: &Ctx, st: &mut Stats) {
     if stride == 1 {
         st.mark_exhaustive("dates x critical-times", &format!("all 3,652,059 dates x {} critical times of day", nt));
     }
+    // timestamps at powers of two counted in seconds / minutes / hours / days from the epoch (Y2038, Y2106, 1901 ...)
+    st.stratum("timestamps at unit-scaled powers of two from the epoch", true);
+    for x in unit_pow2() {
+        for v in [x, -x] {
+            for e in [0i64, 1, -1, 500_000, 999_999, -999_999] {
+                let u = v.saturating_add(e);
+                if (TS_MIN..=TS_MAX).contains(&u) {
+                    st.eval(&C::ab(K::Pair, u.div_euclid(DAY_US), u.rem_euclid(DAY_US)), check);
+                }
+            }
+        }
+    }
     // pool dates x bit-structured times of day
     let bts = bit_times();
     let dpool = date_pool();
@@ -224,6 +264,45 @@ pub fn run(ctx: &Ctx, st: &mut Stats) {
         let t = bts_ref[(i as usize) % bts_ref.len()];
         st.eval(&C::ab(K::Pair, n, t), check);
     });
+    // ---- history monitors: the same oracles, evaluated in orders a single ascending sweep never produces
+    let nh = ctx.tier.pick(300, 300_000, 3_000_000);
+    ctx.par(st, "history: dates at power-of-two distances (A, A+2^k, A) and A,B,A with random B", false, 0, nh, |st, i, rng| {
+        let a = rng.range_i64(MIN_DAY as i64, MAX_DAY as i64);
+        let b = if i % 2 == 0 {
+            let k = rng.below(22);
+            let s = if rng.chance(1, 2) { 1 } else { -1 };
+            a + s * (1i64 << k)
+        } else {
+            rng.range_i64(MIN_DAY as i64, MAX_DAY as i64)
+        };
+        if !(MIN_DAY as i64..=MAX_DAY as i64).contains(&b) {
+            return;
+        }
+        let t = *rng.pick(&[0i64, 1, 43_200_000_000, DAY_US - 1]);
+        for n in [a, b, a] {
+            let c = C::ab(K::Pair, n, t);
+            st.eval_h(mix(c.hash(5), i as u64), &c, check);
+        }
+    });
+    st.stratum("history: Date accessors and Timestamp accessors on numerically equal raw values", true);
+    for n in date_pool().into_iter().map(|x| x as i64).chain((-3000..3000).map(|x| x * 487)).chain([0, 1, -1, 2, -2, 365, 719_162, -719_162, 2_932_896]) {
+        if (MIN_DAY as i64..=MAX_DAY as i64).contains(&n) {
+            st.eval(&C::ab(K::Cross, n, 0), check);
+        }
+    }
+    cold_threads(st, "history: first call on a fresh thread", {
+        let mut v = vec![];
+        for n in [0i64, 1, -1, MIN_DAY as i64, MAX_DAY as i64, 11_016, -25_508] {
+            for t in [0i64, 1, 43_200_000_000, DAY_US - 1] {
+                v.push(C::ab(K::Pair, n, t));
+            }
+            v.push(C::ab(K::Cross, n, 0));
+        }
+        for t in [0i64, 1, DAY_US - 1, 43_200_000_000] {
+            v.push(C::ab(K::Tm, t, 0));
+        }
+        v
+    }, check);
     let nr = ctx.tier.pick(2_000, 2_000_000, ctx.big(40_000_000, 300_000_000));
     ctx.par(st, "dates x random-times", false, 0, nr, |st, _, rng| {
         let n = rng.range_i64(MIN_DAY as i64, MAX_DAY as i64);
